@@ -17,8 +17,11 @@ MANIFEST = dict(
           "is validated by correspondence only). Tie: grid texts x codecs x BOMs x declarations x declared-name classes x "
           "known/user/exclude/from_encoding arguments through the three entry points, real codecs tabulated per case."),
     design="7/C07",
-    note=("Model mirrors the repaired code (fixes/C07-*.diff). chardet/charset_normalizer absent. Encoding names are ASCII. "
-          "smart_quotes_to=None. tried_encodings and warning texts are not compared."),
+    note=("Model mirrors the repaired code (fixes/C07-*.diff; encoding arguments are lists). The chardet step is a parameter (absent in this environment; "
+          "exercised through a stand-in module). Encoding names are ASCII. smart_quotes_to=None. tried_encodings and warning texts are not compared. "
+          "Outside the statement, observed only: bytearray/memoryview markup raises TypeError in find_declared_encoding (markup is typed bytes); a plain "
+          "str passed as exclude_encodings/known_definite_encodings is iterated character by character (the parameters are iterables of names). "
+          "Rx.search = CPython's re on the supported fragment is tied by the rx stream, not proved."),
     technique="Lean 4 refinement proof (generator/two-pass loop = documented meaning, for all codec oracles) + differential correspondence with real codecs + direct oracle",
 )
 
